@@ -694,6 +694,13 @@ func (e *Enc) ptrFieldTerms(p paramModel) [][2]string {
 				if u.Info()&(types.IsInteger|types.IsBoolean|types.IsFloat) != 0 {
 					out = append(out, [2]string{prefix, term})
 				}
+				if u.Info()&types.IsString != 0 {
+					// short strings held in the object (e.g. a suffix or a key item): length and the first bytes
+					out = append(out, [2]string{prefix + "#len", app("gstr.len", term)})
+					for k := 0; k < 8; k++ {
+						out = append(out, [2]string{fmt.Sprintf("%s#%d", prefix, k), app("gstr.at", term, fmt.Sprint(k))})
+					}
+				}
 			case *types.Struct:
 				if depth > 2 {
 					return
